@@ -170,6 +170,65 @@ fn run_sequence(c: &util::Committee, keys: &[validator::SecretKey], syms: &[Sym]
     None
 }
 
+/// Thread level: the node's own `announce()` races an `update()` that carries an entry for the
+/// node's own key (what peers push back after a restart), on REAL threads, every interleaving at
+/// the lock acquisitions of the underlying watch channel.
+fn thread_part(seed: u64) -> (u64, bool, Option<(String, serde_json::Value)>) {
+    use crate::threads::{block_on_visible, explore_all, Run};
+    let (c, keys, _syms) = alphabet(seed);
+    let mut total = 0;
+    let mut complete = true;
+    // (version of the pushed own entry, its timestamp, timestamp of the announce)
+    for (si, (pushed_version, t_pushed, t_announce)) in [(5u64, 100i64, 200i64), (5, 200, 100), (0, 100, 100)].into_iter().enumerate() {
+        let own_addr: std::net::SocketAddr = "10.9.9.9:9".parse().unwrap();
+        let pushed = Arc::new(keys[0].sign_msg(validator::NetAddress { addr: "10.0.0.1:1000".parse().unwrap(), version: pushed_version, timestamp: t(t_pushed) }));
+        let sched = c.schedule.clone();
+        let key0 = keys[0].clone();
+        let (runs, all, fail) = explore_all(
+            || {
+                let w = Arc::new(VAddrsWatch::default());
+                let upd_ok: Arc<std::sync::Mutex<Option<bool>>> = Default::default();
+                let mut threads: Vec<Box<dyn FnOnce() + Send>> = vec![];
+                {
+                    let (w, pushed, sched, upd_ok) = (w.clone(), pushed.clone(), sched.clone(), upd_ok.clone());
+                    threads.push(Box::new(move || {
+                        let r = block_on_visible(w.update(&sched, &[pushed]));
+                        *upd_ok.lock().unwrap() = Some(r.is_ok());
+                    }));
+                }
+                {
+                    let (w, key0) = (w.clone(), key0.clone());
+                    threads.push(Box::new(move || {
+                        block_on_visible(w.announce(&key0, own_addr, t(t_announce)));
+                    }));
+                }
+                let key0 = key0.clone();
+                let check: Box<dyn FnOnce(&Run) -> Option<String>> = Box::new(move |_run| {
+                    if *upd_ok.lock().unwrap() != Some(true) {
+                        return Some("the update with a valid entry for the node's own key was refused".into());
+                    }
+                    let cur = w.current();
+                    let Some(e) = cur.get(&key0.public()) else { return Some("the node's own entry is missing".into()) };
+                    // the update was accepted: (pushed_version, t_pushed) has been stored at some moment, so
+                    // the final entry is that one or a strictly newer one
+                    if (e.msg.version, e.msg.timestamp) < (pushed_version, t(t_pushed)) {
+                        return Some(format!("the node accepted the announcement (version {pushed_version}, t={t_pushed}) for its own key but ends up holding the OLDER (version {}, {:?}): its own announce() replaced a newer entry", e.msg.version, e.msg.timestamp));
+                    }
+                    None
+                });
+                (threads, check)
+            },
+            100_000,
+        );
+        total += runs;
+        complete &= all;
+        if let Some((prefix, what)) = fail {
+            return (total, false, Some((format!("[announce_vs_update_threads] pushed own entry (version {pushed_version}, t={t_pushed}), announce at t={t_announce}: {what} (interleaving {prefix:?})"), json!({"harness": "c18-threads", "scenario": si, "interleaving": prefix}))));
+        }
+    }
+    (total, complete, None)
+}
+
 pub fn run(args: &Args) -> Report {
     let mut rep = Report::new("C18", "exploration");
     let (c, keys, syms) = alphabet(args.seed);
@@ -276,7 +335,12 @@ pub fn run(args: &Args) -> Report {
     if let Some(v) = order_viol {
         rep.violations.push(Violation { key: "order_dependence".into(), what: v, replay: json!({"harness":"c18-orders"}) });
     }
+    let (truns, tall, tviol) = thread_part(args.seed);
+    if let Some((w, r)) = tviol {
+        rep.violations.push(Violation { key: "announce_vs_update_threads".into(), what: w, replay: r });
+    }
     rep.coverage = json!({
+        "thread_level_interleavings_announce_vs_update": truns, "thread_level_all_explored": tall,
         "evaluations": seqs.len() as u64 + orders,
         "distinct_nontrivial": seqs.len() as u64,
         "rule": "every sequence of the scope (one batch of <= 3 announcements; a batch of <= 2 followed by a batch of <= 3; the node's own announcement before / between batches; thorough: three batches of <= 2) over a 9-symbol alphabet (validator a: 4 valid (version, timestamp, address) combinations incl. version u64::MAX, a forged newer and a forged older entry; validator b: 2; a non-member's valid announcement; repeated keys arise from repetition) applied through the real ValidatorAddrsWatch::update / announce and compared with the stated rule after every batch; every subset of <= 4 valid announcements in every arrival order",
